@@ -5,7 +5,7 @@ import Octo.Model.SqlOk
 `binLevel` (a left-associative binary level), `sepBy1` (comma separated lists) and the follow-set machinery
 (`tokLevel`, `follow`): what a parser of precedence level `k` needs to know about the token after its input.
 -/
-namespace Octo.Sql
+namespace Octo.SqlSyn
 
 /-- the loosest precedence level at which a token continues an expression (0: it never does) -/
 def tokLevel : Tok → Nat
@@ -158,4 +158,4 @@ theorem sepBy1_rt
 
 end sep
 
-end Octo.Sql
+end Octo.SqlSyn
